@@ -24,6 +24,8 @@ func init() {
 	r10Wrap("C09", r10Lines)
 	r10Wrap("C02", r10BigShort)
 	r10Wrap("C02", r10SameKey)
+	r10Wrap("C09", r10LookalikeReq)
+	r10Wrap("C10", r10LookalikeResp)
 	r10Wrap("C17", r10BigShort)
 	replayers["C02WB"] = func(c *ctx, in []string) {
 		n, _ := strconv.Atoi(in[0])
@@ -116,6 +118,67 @@ func r10SameKey(c *ctx) {
 		for _, n := range []int{0, 1, 5, 8, 13, 130} {
 			crs(c, c.payload(k), c.payload(n), [4]byte{0xa1, 0xb2, 0xc3, byte(0xd0 + k)})
 			crs(c, c.payload(k), c.payload(n), [4]byte{})
+		}
+	}
+}
+
+// look-alike header NAMES (the idea of r10-C14 carried over to the handshake): every mandatory header name with ONE byte
+// replaced at every position - same length, same prefix or suffix, another header. (a) the look-alike INSTEAD of the real
+// header: the request / response lacks the header and is refused; (b) the look-alike with a bad value NEXT TO the real
+// header: it is an ordinary unknown header and changes nothing.
+func r10Lookalikes(name string) []string {
+	var out []string
+	for i := 0; i < len(name); i++ {
+		for _, ch := range []byte{'x', name[i] ^ 0x20} {
+			n := []byte(name)
+			if n[i] == ch || n[i] == '-' && ch == '-'^0x20 {
+				continue
+			}
+			n[i] = ch
+			if strings.EqualFold(string(n), name) {
+				continue // the other case of a letter is the SAME header name
+			}
+			out = append(out, string(n))
+		}
+	}
+	return out
+}
+
+func r10LookalikeReq(c *ctx) {
+	for _, m := range mandatory {
+		for _, look := range r10Lookalikes(m.name) {
+			for _, api := range []string{"ws", "up"} {
+				r := baseReq()
+				r.lines = append(canonLines(m.name), look+": "+m.good)
+				u09(c, api, 0, 0, "eof", chunkWhole(r.bytes()), ucfg{})
+				r = baseReq()
+				bad := "bogus"
+				if len(m.wrong) > 0 && m.wrong[0] != "" {
+					bad = m.wrong[0]
+				}
+				r.lines = append(canonLines(""), look+": "+bad)
+				u09(c, api, 0, 0, "eof", chunkWhole(r.bytes()), ucfg{})
+			}
+		}
+	}
+}
+
+func r10LookalikeResp(c *ctx) {
+	for _, m := range respMandatory {
+		for _, look := range r10Lookalikes(m.name) {
+			r := baseResp()
+			r.lines = append(respLinesExcept(m.name), look+": "+m.good)
+			d10(c, 0, 0, "eof", "ws://example.com/ws", r.bytes(), nil, dcfg{})
+			r = baseResp()
+			r.lines = append(respLinesExcept(""), look+": bogus")
+			d10(c, 0, 0, "eof", "ws://example.com/ws", r.bytes(), nil, dcfg{})
+		}
+	}
+	for _, name := range []string{"Sec-WebSocket-Protocol", "Sec-WebSocket-Extensions"} {
+		for _, look := range r10Lookalikes(name) {
+			r := baseResp()
+			r.lines = append(respLinesExcept(""), look+": zzz")
+			d10(c, 0, 0, "eof", "ws://example.com/ws", r.bytes(), nil, dcfg{protocols: []string{"a"}})
 		}
 	}
 }
